@@ -381,6 +381,7 @@ class Expr:
         r = self
         if len(self.n) > 1 and self._has_neg_base():
             num, den = _num_den(self)
+            num, den = num.expand(), den.expand()
             if not num.n:
                 r = ZERO
             else:
@@ -684,6 +685,8 @@ def _clear_den(p, depth=0):
                 k = max(k, math.ceil(-e))
     shifted = pscale(p, C1, ((target, k),))
     x = _fix_bases(Expr(shifted))
+    if x.n and x.has_defs():
+        x = x.expand()  # definitions inside the substituted denominators
     if not x.n:
         return {}
     return _clear_den(x.n, depth + 1)
@@ -980,6 +983,8 @@ def power(x, e):
             if c != C1:
                 r = r * _base_pow(Expr({(): c}), e)
             return _fix_bases(r)
+        if c == C1 and len(m) == 1 and m[0][1] == 1:
+            return _fix_bases(Expr({((m[0][0], e),): C1}))  # (a^1)^e
         # (p^2)^(1/2) etc. are not simplified for atoms of unknown sign
     return _base_pow(x, e)
 
@@ -1044,10 +1049,40 @@ def exp(x):
             continue
         marg = Expr({m: C1})
         if c.re != 0:
-            out = out * atom_expr(_atom("fn", "exp", (marg,), pos=True), c.re)
+            a, r = _exp_atom("exp", marg)
+            out = out * atom_expr(a, c.re * r)
         if c.im != 0:
-            out = out * atom_expr(_atom("fn", "expi", (marg,)), c.im)
+            a, r = _exp_atom("expi", marg)
+            out = out * atom_expr(a, c.im * r)
     return out
+
+
+_SMALLQ = {}
+
+
+def _exp_atom(kind, marg):
+    """exp/expi generator for the monic monomial marg; an existing generator
+    whose argument is a rational multiple of marg is reused (marg == r*arg),
+    so that the same exponential never gets two representations"""
+    lst = Atom._registry.get(("fn", kind, 1), [])
+    fx = marg.fp()
+    if fx is not None and fx != 0 and lst:
+        if not _SMALLQ:
+            for d in range(1, 25):
+                for n in range(1, 49):
+                    if math.gcd(n, d) == 1:
+                        _SMALLQ.setdefault(n * pow(d, -1, _P) % _P, Q(n, d))
+        for a in lst:
+            if a.args[0].n == marg.n:
+                return a, 1
+            fy = a.args[0].fp()
+            if fy is None or fy == 0:
+                continue
+            rho = fx * pow(fy, -1, _P) % _P
+            r = _SMALLQ.get(rho)
+            if r is not None and marg.eq(a.args[0] * r):
+                return a, _exp_norm(r)
+    return _atom("fn", kind, (marg,), pos=(kind == "exp")), 1
 
 
 def exponent_of(x):
